@@ -128,3 +128,17 @@ Theorem C19_cursor_resolve : forall (t : table) (c : N) (a : bytes),
   c <= u32_max -> lenN t <= pow32 -> In a t ->
   exists o, cursor_to_opid t c a = Ok o /\ denote t o = Some (c, a).
 Proof. exact cursor_resolve_denotes. Qed.
+
+(* end to end for cursors: made by one replica for its element (c, i) (OpCursor::new), sent as
+   bytes or text, decoded, and resolved by a replica with another actor table *)
+Theorem C19_cursor_transport : forall (tp tq : table) (c i : N) (a : bytes) (m : move_cursor),
+  get_actor_safe tp i = Some a -> c <= u32_max -> wf_bytesb a = true -> lenN a < pow64 ->
+  lenN tq <= pow32 -> In a tq ->
+  exists cur o, cursor_new tp (c, i) m = Ok cur /\
+                cursor_of_bytes (cursor_to_bytes cur) = Ok cur /\
+                cursor_of_str (cursor_to_str cur) = Ok cur /\
+                cursor_to_opid tq c a = Ok o /\ denote tq o = denote tp (c, i).
+Proof. exact cursor_transport. Qed.
+Example C19_cursor_transport_nonvacuous :
+  get_actor_safe [[1]; [9]] 1 = Some [9] /\ In [9] [[0]; [9]; [200]] /\ cursor_to_opid [[0]; [9]; [200]] 5 [9] = Ok (5, 1).
+Proof. repeat split; try reflexivity. right. left. reflexivity. Qed.
